@@ -5,19 +5,17 @@
   `_transform_ode_from_derivs`, the loop nest of `_derivative_transformation_matrix`, the fold of
   `_rearrange_to_explicit_ode`, the composition `_transform_and_rearrange_to_explicit_ode`.
 
-  What is modelled here by hand and tied by correspondence:
+  What is modelled here by hand (library primitives, tied by correspondence):
   * `sympy.bell(n, k, symbols)` (incomplete Bell polynomial, by the recurrence sympy itself uses);
-  * NumPy plumbing: a square matrix as a function of (row, column), `range`, `M.dot(v)`;
-  * `scipy.linalg.solve(M, b)` for the lower-triangular matrices the code builds (forward substitution;
-    contract of the library: the result `v` satisfies `M v = b`);
-  * the initial-data mapping of `solve_ode_ivp`  (`y0 ↦ [y0[0]] ++ solve(M, y0[1:])`),
-  * the back-transformation of `_transform_solution_to_original_domain`
-    (`interpolated ↦ [interpolated[0]] ++ M.dot(interpolated[1:])`),
-  * `_evaluate_coeffs_on_points` (number → constant row, callable → evaluated row),
-  * the first-order system `func` and the boundary-condition callback `bc` of `solve_ode_bvp`.
+  * NumPy / Python plumbing: a square matrix as a function of (row, column), `range`, `M.dot(v)`, `min`/`max`,
+    column assignments, `seq[i]`;
+  * `scipy.linalg.solve(M, b)` for the lower-triangular matrices the code builds (forward substitution, used by
+    the driver; in the theorems `solve` is a parameter with the contract `M · solve(M, b) = b`);
+  * the types of the arguments (`TransformFns`, `Coeff`) and of SciPy's result object (`SolveResult`).
 
-  The SciPy integrators `solve_ivp` / `solve_bvp` are *not* modelled: in the theorems they are a
-  parameter (functions `Y₀ … Y_{K-1}` with the contract "solves the first-order system it was given").
+  Since round 2 the bodies of `solve_ode_ivp`, `solve_ode_bvp` (with their callbacks `func`, `bc`),
+  `_transform_solution_to_original_domain` and `_evaluate_coeffs_on_points` are *generated* too (Gen/Ode.lean):
+  the SciPy integrators `solve_ivp` / `solve_bvp` and `scipy.linalg.solve` are named parameters there.
 
   No Mathlib import (linked into the driver).  Generic in `K` (Float in the driver, ℝ in the theorems).
 -/
@@ -99,48 +97,80 @@ def matVec (m : Mat K) (v : List K) : List K :=
 def forwardSolve (m : Mat K) (b : List K) : List K :=
   b.zipIdx.foldl (fun (xs : List K) (p : K × Nat) => xs ++ [(p.1 - rowDot m p.2 xs) / m p.2 p.2]) []
 
-/-! ### the parts of `solve_ode_ivp` / `solve_ode_bvp` / `_transform_solution_to_original_domain` -/
+/-! ### types of the arguments and of SciPy's results; Python/NumPy plumbing used by the generated text -/
 
-/-- `solve_ode_ivp`, transform branch: `y0 = np.hstack(([y0[0]], solve(deriv, y0[1:])))`:
-the given derivatives with respect to the original variable `x` are converted to derivatives with
-respect to `r = g(x)`; the function value is kept. -/
-def ivpInitial (m : Mat K) (y0 : List K) : Option (List K) :=
-  match y0 with
-  | [] => none                      -- `y0[0]`: IndexError
-  | h :: t => some (h :: forwardSolve m t)
+/-- What `ode.py` reads from a `BaseTransform` object: the five methods and the attribute `domain`. -/
+structure TransformFns (K : Type) where
+  transform : K → K
+  inverse : K → K
+  deriv : K → K
+  deriv2 : K → K
+  deriv3 : K → K
+  domain : K × K
 
-/-- `_transform_solution_to_original_domain.interpolate_wrt_original_var`, one point, derivative branch:
-`new[0] = interpolated[0]`, `new[1:] = deriv.dot(interpolated[1:])`. -/
-def backTransform (m : Mat K) (interp : List K) : Option (List K) :=
-  match interp with
-  | [] => none
-  | h :: t => some (h :: matVec m t)
+/-- What `ode.py` reads from the object returned by `scipy.integrate.solve_ivp` / `solve_bvp`:
+`res.status` and the dense output `res.sol` (a function of the integrator's independent variable; its value is
+the column `[Y₀, …, Y_{K-1}]`). -/
+structure SolveResult (K : Type) where
+  status : Int
+  sol : K → List K
 
-/-- The `no_derivs` branch: only row 0. -/
-def backTransformNoDerivs (interp : List K) : Option K := interp.head?
+/-- The exceptions the modelled functions raise. -/
+inductive OdeErr where
+  | valueError
+  | notImplementedError
+  | indexError
+  deriving DecidableEq, Repr
 
 /-- A coefficient of the ODE as the user may give it (`_evaluate_coeffs_on_points`):
-a number or a callable. -/
+a number (`isinstance(val, Number)`) or a callable. -/
 inductive Coeff (K : Type) where
   | const (c : K)
   | fn (f : K → K)
 
-/-- `_evaluate_coeffs_on_points` at one point: `coeff_mtr[i] = 0 + val` resp. `0 + val(x)`. -/
-def evalCoeff (x : K) : Coeff K → K
-  | .const c => ((0 : Nat) : K) + c
-  | .fn f => ((0 : Nat) : K) + f x
+/-- Specification side: the value `a_k(x)` of a coefficient at a point. -/
+def Coeff.at : Coeff K → K → K
+  | .const c, _ => c
+  | .fn f, x => f x
 
-def evalCoeffs (x : K) (cs : List (Coeff K)) : List K := cs.map (evalCoeff x)
+/-- Python `seq[i]` for a non-negative index inside a function that may raise (`IndexError`). -/
+def idxE {α : Type} (l : List α) (i : Nat) : Except OdeErr α :=
+  match l[i]? with
+  | some v => .ok v
+  | none => .error .indexError
 
-/-- `np.vstack((*y[1:, :], dy_dx))`: the first-order system `(y₀,…,y_{K-1})' = (y₁,…,y_{K-1}, dy)`. -/
-def firstOrderRhs (y : List K) (dy : K) : List K := y.drop 1 ++ [dy]
+/-- An `Option`-valued helper inside a function that may raise (`none` = the index/shape error of the helper). -/
+def liftO {α : Type} : Option α → Except OdeErr α
+  | some v => .ok v
+  | none => .error .indexError
 
-/-- `bc(ya, yb)` of `solve_ode_bvp`: `[bonds[i][deriv] - value for (i, deriv, value) in bd_cond]`
-with `bonds = [ya, yb]` (non-negative indices; out of range = IndexError = `none`). -/
-def bcResiduals (bd : List (Nat × Nat × K)) (ya yb : List K) : Option (List K) :=
-  bd.mapM fun (c : Nat × Nat × K) => do
-    let bond ← [ya, yb][c.1]?
-    let v ← bond[c.2.1]?
-    pure (v - c.2.2)
+/-- Python `min(seq)`: keeps the first element and replaces it by a later `x` when `x < current`
+(`ValueError` on an empty sequence). -/
+def pyMin [LT K] [DecidableLT K] : List K → Except OdeErr K
+  | [] => .error .valueError
+  | h :: t => .ok (t.foldl (fun acc x => if x < acc then x else acc) h)
+
+/-- Python `max(seq)`: replaces the current element by a later `x` when `x > current`. -/
+def pyMax [LT K] [DecidableLT K] : List K → Except OdeErr K
+  | [] => .error .valueError
+  | h :: t => .ok (t.foldl (fun acc x => if acc < x then x else acc) h)
+
+/-- `np.zeros(col.shape)` for one column. -/
+def colZeros (n : Nat) : List K := List.replicate n ((0 : Nat) : K)
+
+/-- `new[0, :] = v`, one column (`IndexError` for an array without rows). -/
+def setRow0 (col : List K) (v : K) : Option (List K) :=
+  match col with
+  | [] => none
+  | _ :: t => some (v :: t)
+
+/-- `new[1:, i] = v`: the rows from 1 on of one column are replaced; NumPy requires `v` to have exactly that many
+entries (otherwise `ValueError`: `none`). -/
+def setRowsFrom1 (col : List K) (v : List K) : Option (List K) :=
+  if v.length + 1 = col.length then some (col.take 1 ++ v) else none
+
+/-- `m.dot(v)` for the `n × n` matrix `m` the code has just built: NumPy requires `len(v) = n`. -/
+def matDot (m : Mat K) (n : Nat) (v : List K) : Option (List K) :=
+  if v.length = n then some (matVec m v) else none
 
 end GridVerif.Ode
